@@ -98,6 +98,23 @@ def decide_and_report(prop, tier, seed, runs, undecided, known, index, wall, ext
         trusted.extend(kani.get('trusted', []))
         solver_ms += int(kani.get('solver_s', 0) * 1000)
 
+    # bounded stand-ins: never counted among the proof obligations; a mismatch is a violation with its failing input
+    bnd = extra.get('bounded')
+    bounded_checks = []
+    if bnd:
+        c = bnd['check']
+        if prop in c['props']:
+            bounded_checks.append({'id': c['id'], 'bound': c['bound'], 'cases': c['cases'], 'accepted_by_the_parser': c['accepted'], 'status': c['status'], 'labelled': 'bounded: not a proof'})
+            if c['status'] == 'FAILURE':
+                failures.append(({'id': c['id'], 'props': c['props'], 'kind': 'bounded', 'message': 'bounded check found a failing input',
+                                  'rendered': c.get('output', ''), 'repo': c.get('repo'), 'fn': c.get('fn'), 'repo_fn': c.get('fn'),
+                                  'repo_file': c.get('file'), 'witness': c.get('witness')}, bnd['run']))
+            elif c['status'] != 'SUCCESS':
+                undecided.append('bounded check %s: %s: %s' % (c['id'], c['status'], c.get('output', '')[-400:]))
+            backends['exhaustive enumeration (bounded, not counted as proof)'] = 1
+            checker_cmds.append(bnd['cmd'])
+            trusted.extend(bnd.get('trusted', []))
+
     # baseline: obligations that existed when the contracts were committed must still be generated
     bpath = os.path.join(ROOT, 'baseline_obligations.json')
     missing = []
@@ -216,7 +233,8 @@ def decide_and_report(prop, tier, seed, runs, undecided, known, index, wall, ext
             'vacuity_probe': probes,
             'known_findings_not_counted': [k['obligation'] for k in known_hits],
             'known_finding_obligation_groups': [o['id'] for o in known_failed_obs],
-            'bounded_parts': pinfo.get('bounded', []) + (kani.get('bounded', []) if kani else []),
+            'bounded_parts': (pinfo.get('bounded', []) if isinstance(pinfo.get('bounded'), list) else []) + (kani.get('bounded', []) if kani else []),
+            'bounded_checks': bounded_checks,
             'undecided': undecided,
             'proof_aids_without_a_place': [dict(a, unit=r.name) for r in runs for a in r.unit.lost_aids],
             'units': [r.name for r in runs],
